@@ -365,6 +365,8 @@ def _unwrap_or_default(it, c, a):
     var, pay = shape(it, a[0], ['None', 'Some'])
     if var == 'Some':
         return pay
+    if it.uc:
+        return LazyV('default')
     raise Unsupported('unwrap_or_default on None')
 
 
